@@ -1,6 +1,9 @@
 import SqlgrepModel.Lemmas.ParseClauses
 import SqlgrepModel.Lemmas.ParsePrefixClauses
+import SqlgrepModel.Lemmas.ParseSemicolon
+import SqlgrepModel.Lemmas.ParseClauseOrder
 import SqlgrepModel.Lemmas.LowerNames
+import SqlgrepModel.Props.Pipeline
 /-
 C20 — parser-level section (owner: builder `pstmt`; the lexical half — letter case of keywords, whitespace,
 comments, string literals — and the C20 manifest are `Props/C20.lean`).
@@ -16,7 +19,7 @@ the expression parser (`Lemmas/ParsePrefix.lean`, builder `pexpr`): the six mutu
 past the first boundary token (clause keyword, `;`, `End`) of their input and treat all boundary tokens alike. With it
 every WHERE / HAVING / GROUP BY segment whose expression is read in front of *one* boundary token is a clause
 (`IsClause`: consumed exactly, whatever follows, at any locations), so clause order and the trailing `;` are theorems
-about arbitrary expressions. What remains `_partial` is said at `trailing_semicolon_statement_partial`.
+about arbitrary expressions, the latter also for whole statements (`trailing_semicolon_statement`).
 -/
 namespace Sqlgrep.Props.C20Parse
 open Sqlgrep Sqlgrep.Parse Sqlgrep.Lower
@@ -122,6 +125,26 @@ that follows it -/
 theorem where_ident_is_a_clause (T : PrecTables) (hT : InertBoundary T) (l1 l2 : Loc) (x : List Char) :
     IsClause T 4 [⟨l1, .kw .where⟩, ⟨l2, .ident x⟩] (.filter (.column ⟨0, 0⟩ x)) := isClause_where_ident T hT l1 l2 x
 
+/-- **Clause order does not matter, starting from "the first order parses"** — `clause_order_invariance_from_run`:
+let `segs1` be segments of the shape "clause keyword, then tokens none of which is a clause keyword, `;` or `End`"
+(`SegShape`: what one gets by cutting the token vector in front of every clause keyword) and suppose the clause loop
+reads `segs1` followed by `End` without error. Then it stopped at that `End`, and for every rearrangement `segs2` of
+the segments (the same token sequences, at any locations) followed by `End` the loop succeeds as well, stops at `End`,
+and returns the same slots up to locations. No hypothesis about the individual clauses is left: that every segment is
+a clause, with which value, and that the kinds are pairwise different is read off the successful run. -/
+theorem clause_order_invariance_from_run (T : PrecTables) (hT : InertBoundary T) (fuel : Nat)
+    (segs1 segs2 : List (List PTok)) (final1 final2 : PSt) (h1 : final1.cur.tok = .eof) (h2 : final2.cur.tok = .eof)
+    (hshape : ∀ seg ∈ segs1, SegShape seg)
+    (hperm : (segs1.map (fun seg => seg.map (·.tok))).Perm (segs2.map (fun seg => seg.map (·.tok))))
+    (c1 : Clauses) (sF : PSt) (hrun : clauseLoop T fuel {} (PSt.prependAll segs1 final1) = .ok c1 sF) :
+    sF = final1 ∧
+      ∃ c2, clauseLoop T (fuel + segs1.length) {} (PSt.prependAll segs2 final2) = .ok c2 final2 ∧ c1.Same c2 :=
+  clauseLoop_perm_of_run hT fuel segs1 segs2 final1 final2 h1 h2 hshape hperm c1 sF hrun
+
+/-- the shape hypothesis on a segment with an expression: `WHERE a = 1` -/
+example (w : Loc) (l : Fin 3 → Loc) : SegShape (⟨w, .kw .where⟩ :: exampleBody l) :=
+  ⟨_, _, rfl, by simp [ClauseKw], exampleBody_nb l⟩
+
 /-! ### trailing semicolon -/
 
 /-- **Optional trailing semicolon** — `trailing_semicolon` (clause level, arbitrary expressions): the same clauses
@@ -138,19 +161,47 @@ theorem trailing_semicolon (T : PrecTables) (hT : InertBoundary T) (fuel0 : Nat)
       c1.Same c2 :=
   clauseLoop_trailing_semi hT fuel0 l0 l l' segs1 segs2 hne hs1 hsame hd fuel hfuel
 
-/-- the local step (proved outright): where a clause run ends at `End`, the same run followed by `;` `End` ends with
-the same slots — `trailing_semicolon_statement_partial`. Together with `trailing_semicolon` (clauses),
-`trailing_semicolon_no_clause` and `trailing_semicolon_after_statement` (`parseOp` looks for one optional `;` and
-returns the statement unchanged) this is the code's whole treatment of the semicolon.
-Not proved at the level of whole statements: for `pre` = `SELECT … FROM t` followed by clauses,
-`parseTokens (pre ++ [⟨l, ;⟩, ⟨l', End⟩])` and `parseTokens (pre ++ [⟨l, End⟩])` give the same tree. Missing: prefix
-determinism for the functions that run before the clause loop (projection loop, `FROM` table, file) — the expression
-parser, the clause loop and `parseOp` are covered. (The equation cannot hold for *every* `pre`: with
-`pre = SELECT x FROM t ; ;` the first vector is rejected with `TooManyTokens`, the second is accepted — the model
-evaluates so, and so does the code; CREATE TABLE needs its `;` anyway.) -/
-theorem trailing_semicolon_statement_partial (T : PrecTables) (fuel : Nat) (c : Clauses) (l l' : Loc) :
+/-- the local step: where a clause run ends at `End`, the same run followed by `;` `End` ends with the same slots, the
+`;` being consumed by the loop's own `;` arm -/
+theorem trailing_semicolon_loop_step (T : PrecTables) (fuel : Nat) (c : Clauses) (l l' : Loc) :
     clauseLoop T (fuel + 1) c { cur := ⟨l, .semi⟩, rest := [⟨l', .eof⟩] } = .ok c { cur := ⟨l', .eof⟩, rest := [] } := by
   simp [clauseLoop, clauseTurn, next]
+
+/-- **Optional trailing semicolon, whole statements** — `trailing_semicolon_statement`: let `pre` be any token vector
+without `;` and without `End` tokens. `Parser::parse` (with the fuel it is run with) reads `pre ++ [End]` as a SELECT
+statement **iff** it reads `pre ++ [;, End]` as a SELECT statement, and then the two trees are the same up to token
+locations (`PSelect.SameUpToLoc`: same DISTINCT flag, projections and aliases, table, file, and the same five clause
+slots, expressions compared modulo locations) — for arbitrary projections and clause expressions, any locations of
+`;` and `End`.
+What the side condition excludes, and what happens there:
+* `;` inside `pre`: the equivalence fails — `SELECT x FROM t ; ;` followed by `End` is accepted (the loop takes one `;`,
+  `Parser::parse` the other) but followed by `;` `End` it is rejected with `TooManyTokens` (example below);
+* CREATE TABLE statements: their `;` is not optional — it is the terminator `parse_create_table` demands
+  (`ExpectedSemiColon` without it, example below), so the theorem is about SELECT trees only; a vector whose tree is a
+  CREATE TABLE contains a `;` and is outside the side condition anyway. -/
+theorem trailing_semicolon_statement (T : PrecTables) (hT : InertBoundary T) (pre : List PTok)
+    (hpre : ∀ t ∈ pre, t.tok ≠ .semi ∧ t.tok ≠ .eof) (l0 l l' : Loc) :
+    (∀ q, parseTokens T (pre ++ [⟨l0, .eof⟩]) = .tree (.select q) →
+      ∃ q', parseTokens T (pre ++ [⟨l, .semi⟩, ⟨l', .eof⟩]) = .tree (.select q') ∧ q.SameUpToLoc q') ∧
+    (∀ q', parseTokens T (pre ++ [⟨l, .semi⟩, ⟨l', .eof⟩]) = .tree (.select q') →
+      ∃ q, parseTokens T (pre ++ [⟨l0, .eof⟩]) = .tree (.select q) ∧ q'.SameUpToLoc q) :=
+  ⟨fun q h => semicolon_transfer hT pre hpre l0 l l' ⟨⟨l0, .eof⟩, []⟩ ⟨⟨l, .semi⟩, [⟨l', .eof⟩]⟩ (.inl ⟨rfl, rfl⟩) q h,
+   fun q' h => semicolon_transfer hT pre hpre l0 l l' ⟨⟨l, .semi⟩, [⟨l', .eof⟩]⟩ ⟨⟨l0, .eof⟩, []⟩ (.inr ⟨rfl, rfl⟩) q' h⟩
+
+/-- the hypotheses of `trailing_semicolon_statement` are satisfiable: the model reads
+`SELECT a, b AS c FROM t WHERE a = 1 GROUP BY a End` as a SELECT statement -/
+example : isSelect (parseTokens PrecTables.code (exampleSelect ++ [⟨⟨0, 15⟩, .eof⟩])) = true ∧
+    (∀ t ∈ exampleSelect, t.tok ≠ .semi ∧ t.tok ≠ .eof) := by decide
+
+/-- `; ;`: with a `;` inside `pre` the equivalence fails (accepted with `End`, `TooManyTokens` with `;` `End`) -/
+example : isSelect (parseTokens PrecTables.code (exampleSelectTwoSemis ++ [⟨⟨0, 6⟩, .eof⟩])) = true ∧
+    errKind? (parseTokens PrecTables.code (exampleSelectTwoSemis ++ [⟨⟨0, 6⟩, .semi⟩, ⟨⟨0, 7⟩, .eof⟩])) = some .tooManyTokens := by
+  decide
+
+/-- CREATE TABLE: the `;` is mandatory -/
+example : isCreate (parseTokens PrecTables.code (exampleCreate ++ [⟨⟨0, 16⟩, .semi⟩, ⟨⟨0, 17⟩, .eof⟩])) = true ∧
+    errKind? (parseTokens PrecTables.code (exampleCreate ++ [⟨⟨0, 16⟩, .eof⟩])) = some .expectedSemiColon := by
+  decide
 
 /-- … and without clauses: `SELECT … FROM t;` and `SELECT … FROM t` give the same (empty) slots -/
 theorem trailing_semicolon_no_clause (T : PrecTables) (fuel : Nat) (l l' : Loc) :
@@ -231,6 +282,44 @@ theorem regex_mode_case_insensitive (n : List Char) (l : Loc) (t : PTok) (r : Li
   · intro h; simp [parseRegexMode, h, next]
   · intro h
     simp [parseRegexMode, h, next]
+
+/-! ### token locations (layout) — the statement parser, the lowering, and the whole program -/
+
+/-- **The statement parser reads only the tokens** (proved outright): on a token vector with other locations
+`Parser::parse` returns the same tree up to locations, or an error of the same kind -/
+theorem parser_ignores_locations (T : PrecTables) (toks : List PTok) :
+    parseTokens T (toks.map PTok.strip) = (parseTokens T toks).strip :=
+  parseTokens_strip T toks
+
+/-- **The lowering reads a tree's locations only into errors** (proved outright): trees equal up to locations lower
+to the same statement, or to a conversion error of the same kind -/
+theorem lowering_ignores_locations (rv : List Char → Bool) (t : POp) :
+    lowerStatement rv t.eraseLoc = (lowerStatement rv t).mapErr CErr.strip :=
+  lowerStatement_erase rv t
+
+/-- whole-statement form of `names_case_insensitive`: letter case of function and aggregate names does not matter to
+any statement (projections with aggregate extraction and naming, WHERE, GROUP BY, HAVING) -/
+theorem names_case_insensitive_statement (ρ : List Char → List Char) (hρ : CaseOnly ρ) (rv : List Char → Bool) (t : POp) :
+    lowerStatement rv (t.renameCalls ρ) = (lowerStatement rv t).mapErr (CErr.rename ρ) :=
+  lowerStatement_rename ρ hρ rv t
+
+/-- **Parse to the same statement and therefore produce the same output** (C20 end to end, proved outright): texts
+that are layouts of the same lexemes — letter case of keywords, whitespace, line breaks, comments — give the same
+end-to-end run of the program (`Props/Pipeline.lean`: tokenizer `layout_invariance` + `location_blind` +
+`runText_depends_on_statements`) -/
+theorem same_statement_same_output (F : Pipeline.Facts) (D₁ D₂ Q₁ Q₂ : Lex.Layout)
+    (hD₁ : D₁.Ok (Pipeline.lexOracles F)) (hD₂ : D₂.Ok (Pipeline.lexOracles F))
+    (hQ₁ : Q₁.Ok (Pipeline.lexOracles F)) (hQ₂ : Q₂.Ok (Pipeline.lexOracles F))
+    (sameD : D₁.lexemes.map (·.tok (Pipeline.lexOracles F)) = D₂.lexemes.map (·.tok (Pipeline.lexOracles F)))
+    (sameQ : Q₁.lexemes.map (·.tok (Pipeline.lexOracles F)) = Q₂.lexemes.map (·.tok (Pipeline.lexOracles F)))
+    (fmt : Print.Format) (single : Bool) (files : List (List Nat)) (d q : LStmt)
+    (hc₁ : Pipeline.classesCover F D₁.text = true ∧ Pipeline.classesCover F Q₁.text = true)
+    (hc₂ : Pipeline.classesCover F D₂.text = true ∧ Pipeline.classesCover F Q₂.text = true)
+    (hd : Pipeline.parseText (Pipeline.lexOracles F) (Pipeline.regexValidFn F) D₁.text = .stmt d)
+    (hp : (Pipeline.createPatterns d).all (fun re => ((Utf8.decode re).bind (Pipeline.regexValidOf F)).isSome) = true)
+    (hq : Pipeline.parseText (Pipeline.lexOracles F) (Pipeline.regexValidFn F) Q₁.text = .stmt q) :
+    Pipeline.runText F D₁.text Q₁.text fmt single files = Pipeline.runText F D₂.text Q₂.text fmt single files :=
+  Props.Pipeline.same_statement_same_output F D₁ D₂ Q₁ Q₂ hD₁ hD₂ hQ₁ hQ₂ sameD sameQ fmt single files d q hc₁ hc₂ hd hp hq
 
 /-! ### non-vacuity -/
 
